@@ -100,6 +100,11 @@ class RX(ExchMixin, FinamInterp):
             return Sym("select", c, k)
         return super().sym_item(c, k, node)
 
+    def unpack(self, v, n, node):
+        if isinstance(v, Sym) and v.op == "query" and n == 2:
+            return [Sym("select", v, 0), Sym("select", v, 1)]  # (distances, ids) of a tree query
+        return super().unpack(v, n, node)
+
     def decide(self, cond, node):
         if isinstance(cond, Sym) and cond.op in ("M", "CRSDEF", "CRS", "transformer", "PTS"):
             return True
